@@ -66,6 +66,12 @@ def small_hypergraphs(thorough=False):
     H = xgi.Hypergraph({"e1": ["a", "b", "c"], "e2": ["c", "d"], 7: ["d", "e", "a"], "e3": ["f"]})
     H.add_node("iso")
     yield ("str-labels", H)
+    H = xgi.Hypergraph()
+    H.add_nodes_from(["a", "b", 7])
+    yield ("edgeless-str-labels", H)
+    H = xgi.Hypergraph({5: [10, 20], 9: [20, 30]})
+    H.remove_edges_from([5, 9])
+    yield ("edges-removed-gapped-labels", H)
 
 
 def relabel(H, nmap, emap, order_seed):
@@ -106,9 +112,9 @@ def clique_expansion(H):
 def c14():
     for label, H in small_hypergraphs(THOROUGH):
         G = bip(H)
-        want = sorted(sorted((x[1] for x in comp if x[0] == "n"), key=repr) for comp in nx.connected_components(G) if any(x[0] == "n" for x in comp))
+        want = sorted((sorted((x[1] for x in comp if x[0] == "n"), key=repr) for comp in nx.connected_components(G) if any(x[0] == "n" for x in comp)), key=repr)
         comps = [set(c) for c in xgi.connected_components(H)]
-        got = sorted(sorted(c, key=repr) for c in comps)
+        got = sorted((sorted(c, key=repr) for c in comps), key=repr)
         check(got == want, "connected components = components of the bipartite graph", label, (got, want))
         check(sum(len(c) for c in comps) == H.num_nodes and set().union(*comps) == set(H.nodes) if comps else H.num_nodes == 0, "components partition the node set", label)
         check(xgi.number_connected_components(H) == len(want), "number_connected_components", label)
@@ -135,8 +141,10 @@ def c14():
                     check(all(abs(cc[n] - nxcc[n]) < 1e-9 for n in H.nodes), "clustering coefficient = graph clustering of the projection", label, (cc, nxcc))
                 except Exception as e:  # noqa
                     check(False, "clustering coefficient raised", label, repr(e))
-                Gp = xgi.to_graph(H)
-                check(set(Gp.nodes) == set(H.nodes) and {frozenset(e) for e in Gp.edges if e[0] != e[1]} == {frozenset(e) for e in CE.edges}, "to_graph = pairwise projection", label)
+            # projection graph: also for hypergraphs without edges (vertex set = node set, whatever the labels)
+            Gp = xgi.to_graph(H)
+            check(set(Gp.nodes) == set(H.nodes) and {frozenset(e) for e in Gp.edges if e[0] != e[1]} == {frozenset(e) for e in CE.edges}, "to_graph = pairwise projection", label,
+                  (sorted(map(repr, Gp.nodes)), sorted(map(repr, H.nodes))))
         # s-line graph
         for s in (1, 2):
             for weights in (None, "absolute", "normalized"):
@@ -629,6 +637,26 @@ def c12():
                           "multiorder Laplacian: zero row sums, symmetric, PSD (sparse=%s)" % sparse, label)
                 except Exception as e:  # noqa
                     check(False, "multiorder laplacian raised", label, repr(e))
+                # textbook definition: sum over orders of w_d / <K_d> * L_d (orders without edges contribute nothing)
+                for resc in (False, True):
+                    orders_, ws_ = [1, 2, 3], [1.0, 0.5, 2.0]
+                    want = np.zeros((len(nodes), len(nodes)))
+                    for d_, w_ in zip(orders_, ws_):
+                        se = [e for e in edges if len(E[e]) == d_ + 1]
+                        if not se:
+                            continue
+                        Kd_ = np.array([sum(1 for e in se if n in E[e]) for n in nodes], dtype=float)
+                        Ad_ = np.array([[0 if a == b else sum(1 for e in se if a in E[e] and b in E[e]) for b in nodes] for a in nodes], dtype=float)
+                        Ld_ = d_ * np.diag(Kd_) - Ad_
+                        if resc:
+                            Ld_ = Ld_ / d_
+                        want += w_ * Ld_ / Kd_.mean()
+                    try:
+                        got = dense(xgi.multiorder_laplacian(H, orders_, ws_, sparse=sparse, rescale_per_node=resc))
+                        check(got.shape == want.shape and np.allclose(got, want), "multiorder Laplacian equals sum of w_d/<K_d> L_d (sparse=%s rescale=%s)" % (sparse, resc), label,
+                              float(np.abs(got - want).max()) if got.shape == want.shape else got.shape)
+                    except Exception as e:  # noqa
+                        check(False, "multiorder laplacian raised", label, repr(e))
         if edges and nodes and all(H._node[n] for n in nodes) and all(E[e] for e in edges):
             Ls, Ld = dense(xgi.normalized_hypergraph_laplacian(H, sparse=True)), dense(xgi.normalized_hypergraph_laplacian(H, sparse=False))
             I = np.array([[1.0 if n in E[e] else 0.0 for e in edges] for n in nodes])
@@ -676,7 +704,7 @@ def c13():
     count = 0
     for nv in ((3, 4, 5) if THOROUGH else (3, 4)):
         for verts, faces in all_complexes(nv):
-            for labeller in (lambda v: v, lambda v: "v%d" % v, lambda v: 10 - 2 * v):
+            for labeller in (lambda v: v, lambda v: "v%d" % v, lambda v: 10 - 2 * v, lambda v: [5, 1, 9, 3, 7][v], lambda v: [4, "b", 2, "a", 0][v]):
                 count += 1
                 if count % (1 if THOROUGH else 3) != 0 and labeller(1) != 1:
                     continue
@@ -742,6 +770,18 @@ def c15():
                 el.append(sorted(m, key=repr) if not all(isinstance(x, int) for x in m) else sorted(m))
         if not el or not all(isinstance(x, int) for e in el for x in e):
             continue
+        # second variant: labels whose set iteration order differs from sorted order (ints >= 8 mixed with small ones)
+        MAP = [1, 8, 9, 16, 3, 10, 12, 20, 24, 2]
+        variants = [(label, el)]
+        if all(0 <= x < len(MAP) for e in el for x in e):
+            variants.append((label + " relabelled", [[MAP[x] for x in e] for e in el]))
+        for label, el in variants:
+            _c15_one(label, el)
+    return "every duplicate-free integer-labelled hypergraph of the C14 pool (also relabelled with integers whose set order is not sorted) x min_size {1,2} x exclude_min_size, plus its downward closure"
+
+
+def _c15_one(label, el):
+    if True:
         H = xgi.Hypergraph(el)
         edges = {frozenset(e) for e in el}
         for min_size in (1, 2):
@@ -785,7 +825,6 @@ def c15():
         for fn in (xgi.simplicial_fraction, xgi.edit_simpliciality, xgi.face_edit_simpliciality):
             v = fn(Hc)
             check(v != v or abs(v - 1) < 1e-12, "%s = 1 on a downward-closed hypergraph" % fn.__name__, label, v)
-    return "every duplicate-free integer-labelled hypergraph of the C14 pool x min_size {1,2} x exclude_min_size, plus its downward closure"
 
 
 # ------------------------------------------------------------------ C16
@@ -903,6 +942,17 @@ def c16():
         S2 = xgi.flag_complex_d2(G)
         want = {frozenset(c) for c in nx.enumerate_all_cliques(G) if 2 <= len(c) <= 3}
         check({frozenset(m) for m in S2._edge.values()} == want, "flag_complex_d2 = edges and triangles", ("flag_d2", sd))
+        edges_only = {frozenset(e) for e in G.edges}
+        for p2 in (0, 0.0, 1, 1.0):
+            S2p = xgi.flag_complex_d2(G, p2=p2, seed=sd)
+            got = {frozenset(m) for m in S2p._edge.values()}
+            check(got == (edges_only if p2 == 0 else want), "flag_complex_d2 with triangle probability %r keeps %s triangles" % (p2, "no" if p2 == 0 else "all"), ("flag_d2", p2, sd), (len(got), len(want), len(edges_only)))
+        for ps in ([0.0], [1.0], [1.0, 0.0]):
+            Sp = xgi.flag_complex(G, max_order=len(ps) + 1, ps=ps, seed=sd)
+            got = {frozenset(m) for m in Sp._edge.values()}
+            wantp = {frozenset(c) for c in nx.enumerate_all_cliques(G) if len(c) == 2 or any(len(c) == i + 3 and ps[i] == 1.0 for i in range(len(ps)))}
+            wantp = {c for c in wantp if all(frozenset(f) in wantp for r in range(2, len(c)) for f in itertools.combinations(c, r))}
+            check(got == wantp, "flag_complex with probabilities in {0, 1}", ("flag_ps", ps, sd), (len(got), len(wantp)))
         for N_, p_ in ((7, 0.6), (5, 0.0), (1, 0.5), (6, 0.15)):
             Sr = xgi.random_flag_complex(N_, p_, max_order=2, seed=sd)
             E = {frozenset(m) for m in Sr._edge.values()}
